@@ -26,7 +26,7 @@ PROPS = {
                 assumptions=COMMON_ASSUME + ["ChunkInput<N> models BufferedInput at other capacities and implements only the required trait methods"]),
     'C12': dict(rule=FAMILY_RULE, builds=[('rel', 1.0, 1.0), ('chk', 0.35, 1.0)], must_observe=['spans_checked', 'plain_spans_checked', 'quoted_spans_checked', 'marked_nodes_checked'],
                 assumptions=COMMON_ASSUME + ["positions at end of input are exempt from the line/column recount (the statement covers positions before the end)",
-                                             "plain scalars equal to '~' are exempt from the span-text rule (synthesized for omitted nodes)"]),
+                                             "a plain scalar '~' with an empty span is taken for the scalar synthesized for an omitted node and is exempt from the span-text rule; with a non-empty span it must cover a literal '~'"]),
     'C14': dict(rule=FAMILY_RULE + "; only CR-free inputs containing at least one line break count as non-trivial", builds=[('rel', 1.0, 1.0)],
                 must_observe=['comparisons', 'inputs_with_breaks'], assumptions=COMMON_ASSUME),
     'C17': dict(rule=FAMILY_RULE, builds=[('rel', 1.0, 1.0)], must_observe=['histories', 'push_pull_comparisons', 'single_doc_call_sequences', 'inputs_with_all_histories', 'next_then_load_histories'],
